@@ -131,7 +131,22 @@ def make_model(f, x0, t0, h):
     return M()
 
 
+def _solve(m, total, it, minfrac, entry, h):
+    """solve() on the model itself, or on a Coupler wrapping it (alone, or next to a second model that proposes the same step):
+    the coupler is the documented way to advance several models together, and a model inside it sees the same stage times."""
+    if entry in ("coupler", "coupler2"):
+        from kawin.GenericModel import Coupler
+        models = [m]
+        if entry == "coupler2":
+            models.append(make_model(lambda t, x: -0.3 * x, np.array([1.0, 2.0]), 0.0, h))
+        Coupler(models).solve(total, solverType=_iter(it), minDtFrac=minfrac, maxDtFrac=1)
+    else:
+        m.solve(total, solverType=_iter(it), minDtFrac=minfrac, maxDtFrac=1)
+
+
 def sup_error(case, refine):
+    if case.get("entry", "direct") != "direct":
+        case = dict(case, t0=0.0)          # a coupler keeps its own clock, which starts at 0
     f, ex, y0, rate = problem(case)
     h = case["h"] / refine
     n = case["nsteps"] * refine
@@ -139,7 +154,7 @@ def sup_error(case, refine):
     # the duration need not be a multiple of the step: a tail (fraction of the coarsest step) leaves a shorter last step,
     # and the minimum step fraction is an input of solve() like any other
     total = (case["nsteps"] + case.get("tail", 0.0)) * case["h"]
-    m.solve(total, solverType=_iter(case["iterator"]), minDtFrac=case.get("minfrac", 1e-12), maxDtFrac=1)
+    _solve(m, total, case["iterator"], case.get("minfrac", 1e-12), case.get("entry", "direct"), h)
     if abs(m.t[-1] - (case["t0"] + total)) > 4 * np.spacing(abs(case["t0"]) + total):
         return float("nan"), 1.0, len(m.t) - 1
     ts = np.array(m.t)
@@ -160,7 +175,7 @@ def check_order(case):
     e3, _, n3 = sup_error(case, 4)
     sc = max(sc, 1e-3)
     lo, hi = 1e-11 * sc, 5e-2 * sc
-    out.label("fam_" + case["family"], case["iterator"])
+    out.label("fam_" + case["family"], case["iterator"], "entry_" + case.get("entry", "direct"))
     if case.get("tail"):
         out.label("short_last_step", "tail_below_min_step" if case["tail"] * case["h"] < case.get("minfrac", 0) * (case["nsteps"] + case["tail"]) * case["h"] else "tail_above_min_step")
     if not (all(np.isfinite([e1, e2, e3])) and lo <= e3 and e1 <= hi and e2 >= lo):
@@ -217,10 +232,15 @@ def check_stages(case):
         out.fail("dt_returned", "iterator returned dt %r, f proposed %r" % (dtr, dt))
     # through the solver: one model step
     fam_case = dict(case)
+    entry = case.get("entry", "direct")
+    if entry != "direct":
+        fam_case["t0"] = 0.0 if case["family"] != "poly" else 0.0
+        t = 0.0
+        out.label("entry_" + entry)
     g, ex, y0, rate = problem(fam_case)
     m = make_model(g, y0, t, dt)
     x_before = m.xs[0].copy()
-    m.solve(3 * dt, solverType=_iter(it), minDtFrac=1e-12)
+    _solve(m, 3 * dt, it, 1e-12, entry, dt)
     if m.xs[0].tobytes() != x_before.tobytes():
         out.fail("state_modified_solve", "solve modified the model's state array in place")
     # split calls per step
@@ -268,6 +288,9 @@ def _case(iterators, fams):
         T = (case["nsteps"] + tail)
         cap = 0.1 / T                      # the minimum step stays below the finest step used (h/8)
         case["minfrac"] = {"tiny": 1e-12, "default": 1e-8, "above_tail": min(cap, 2 * tail / T) if tail else 1e-8, "quarter_step": cap}[mk]
+        entry = draw(st.sampled_from(["direct", "direct", "coupler", "coupler2"]))
+        if entry != "direct":
+            case["entry"] = entry
         return case
     return s()
 
@@ -283,7 +306,11 @@ def _stage_case():
         if fam == "poly":
             t0 = max(t0, 0.5)
         h = draw(st.one_of(st.floats(1e-6, 1e3), st.floats(1e-3, 1.0)))
-        return {"iterator": it, "family": fam, "p": p, "x0": x0, "t0": t0, "h": h}
+        case = {"iterator": it, "family": fam, "p": p, "x0": x0, "t0": t0, "h": h}
+        entry = draw(st.sampled_from(["direct", "direct", "coupler", "coupler2"]))
+        if entry != "direct":
+            case["entry"] = entry
+        return case
     return s()
 
 
@@ -291,9 +318,9 @@ def clauses():
     return [
         Clause("order", lambda: _case(["euler", "rk4"], FAMILIES), check_order, quick=480, thorough=12000,
                rule="generator: closed-form ODE family x params x initial value x start time x step (rate*h in [1e-3,1e-2] Euler, [0.03,0.25] RK4), "
-                    "constant step through getDt, three resolutions h,h/2,h/4, through solve() with duration = (n + tail) steps (tail in {0, 1e-3..0.5}) and minDtFrac in {1e-12, 1e-8, 2 tail/n, 0.1/n}; non-trivial: non-autonomous family judged inside the asymptotic window",
+                    "constant step through getDt, three resolutions h,h/2,h/4, through solve() of the model or of a Coupler wrapping it (alone or next to a second model) with duration = (n + tail) steps (tail in {0, 1e-3..0.5}) and minDtFrac in {1e-12, 1e-8, 2 tail/n, 0.1/n}; non-trivial: non-autonomous family judged inside the asymptotic window",
                shrink=False),
         Clause("stages", _stage_case, check_stages, quick=2000, thorough=60000,
-               rule="generator: iterator x t0 in [0,1e6] x dt in [1e-6,1e3] x state length 1-5; the iterator is called directly with a recording f and through solve(); "
+               rule="generator: iterator x t0 in [0,1e6] x dt in [1e-6,1e3] x state length 1-5; the iterator is called directly with a recording f and through solve() of the model or of a Coupler wrapping it; "
                     "non-trivial: RK4 with dt resolvable against t"),
     ]
